@@ -1186,7 +1186,7 @@ def check_access(ctx, cr, s):
         if a != path or trait is not None:
             continue
         fn = lst[0]
-        if fn.get("generic") or fn.get("self_kind") not in ("ref", "mut"):
+        if fn.get("generic") or fn.get("self_kind") not in ("ref", "mut") or not fn.get("pub"):
             continue
         if name in ("raw_value",):
             continue
@@ -1571,6 +1571,8 @@ def check_c11(ctx, cr, s):
         if a not in (path, pp):
             continue
         fn = lst[0]
+        if not fn.get("pub") and fn.get("trait") is None:
+            continue
         depth_self = 0 if a == path else 1
         for run in fn.get("runs", []):
             for o in run["outs"]:
@@ -1624,6 +1626,8 @@ def check_total(ctx, cr, decl):
         fn = lst[0]
         if fn.get("generic") or "runs" not in fn:
             continue
+        if not fn.get("pub"):
+            continue  # private helpers are not operations a user can call; they are covered through their callers
         has_concrete = any(str(v).startswith("=") for r in fn["runs"] for v in r["part"].values())
         for run in fn["runs"]:
             part = run["part"]
